@@ -156,6 +156,27 @@ fn check_bounded(c: &BoundedCase, obs: &mut Obs) {
             let _ = c.draw_iter(s.pixels());
             let inside = |m: &Map<Rgb565>| -> Map<Rgb565> { m.iter().filter(|(k, _)| bb.contains(Point::new(k.0, k.1))).map(|(k, v)| (*k, *v)).collect() };
             let (ia, ic) = (inside(&a.map), inside(&c.map));
+            // the library's own adapters in front of an unbounded parent: draw() and pixels() via draw_iter must leave
+            // the same pixels on the parent (cropped and translated do not clip, clipped does)
+            {
+                use embedded_graphics::draw_target::DrawTargetExt;
+                macro_rules! through {
+                    ($name:expr, $m:ident, $arg:expr) => {{
+                        let mut p1 = RecN::<Rgb565>::new();
+                        let _ = s.draw(&mut p1.$m($arg));
+                        let mut p2 = RecD::<Rgb565>::new();
+                        let _ = s.draw(&mut p2.$m($arg));
+                        let mut p3 = RecD::<Rgb565>::new();
+                        let _ = p3.$m($arg).draw_iter(s.pixels());
+                        if p1.map != p3.map || p2.map != p3.map {
+                            obs.fail("draw==pixels-through-an-adapter", format!("{} with area {:?}: native parent vs pixels(): {}; draw_iter-only parent vs pixels(): {}", $name, tb, map_diff(&p1.map, &p3.map), map_diff(&p2.map, &p3.map)));
+                        }
+                    }};
+                }
+                through!("cropped", cropped, &bb);
+                through!("clipped", clipped, &bb);
+                through!("translated", translated, Point::new(3, -2));
+            }
             obs.class_if(!ic.is_empty() && s.primitive.bounding_box().intersection(&bb).is_zero_sized(), "only-the-stroke-reaches-the-target");
             if ia != ic {
                 obs.fail("draw==pixels-inside-the-target", format!("target box {:?}: a=draw(), b=pixels(): {}", tb, map_diff(&ia, &ic)));
